@@ -288,6 +288,25 @@ def _callback(name):
     return cb
 
 
+class StatefulCallback:
+    """A callback OBJECT with per-call state (a reusable buffer, an 'in progress' mark), as user code has: a call that
+    fails half-way leaves it dirty.  labrea evaluates a fresh copy of such a callable on every evaluation (Value.evaluate
+    deep-copies), so a failed evaluation cannot leak into the next one."""
+
+    def __init__(self, name):
+        self.name = name
+        self.busy = False
+        self.__name__ = f"cb_{name}"
+
+    def __call__(self, v):
+        if self.busy:
+            raise RuntimeError(f"callback object of {self.name} was left dirty by an earlier, failed call")
+        self.busy = True
+        rt.call("callback", self.name, v=v)  # (fault point)
+        self.busy = False
+        return ("cb", self.name, freeze(v))
+
+
 def _callback_step_impl(name):
     def impl(x, **kw):
         rt.call("callback", name, v=x, **kw)
@@ -566,6 +585,8 @@ class Program:
         if n.get("callback") and n.get("callback_opt"):
             cfn = make_step_fn(f"cb_{name}", ["p"], [self.ref(n["callback_opt"])], _callback_step_impl(name))
             kw["callback"] = pipeline_step(cfn)
+        elif n.get("callback") == "stateful":
+            kw["callback"] = StatefulCallback(name)
         elif n.get("callback"):
             kw["callback"] = _callback(name)
         if n.get("effects") or n.get("effects_opt"):
